@@ -160,6 +160,16 @@ func ZZC07_crash_manifest_put() {
 		zzAssert(e2 == nil && e3 == nil && d.Digest == m.GetDescriptor().Digest, "mp_completed_put_visible")
 	}
 	zzCrash(p, wasLayout, tag, "mp")
+	// repeating the interrupted operation brings the layout to the intended state
+	o2 := New()
+	zzAssert(o2.ManifestPut(context.Background(), rr, m) == nil, "mp_repeat_succeeds")
+	zzAssert(zzos.Cur.Exists(path.Join(zzLay, "blobs", "sha256", m.GetDescriptor().Digest.Encoded())), "mp_repeat_reaches_the_intended_state")
+	if tag != "" {
+		idx, e2 := o2.readIndex(p.r, false)
+		d, e3 := indexGet(idx, rr)
+		zzAssert(e2 == nil && e3 == nil && d.Digest == m.GetDescriptor().Digest, "mp_repeat_reaches_the_intended_state")
+	}
+	zzValidLayout(p, true, tag, "mp_after_repeat")
 }
 
 func ZZC07_crash_blob_put() {
@@ -187,6 +197,14 @@ func ZZC07_crash_tag_delete() {
 	err := o.TagDelete(context.Background(), p.r.SetTag(victim))
 	zzAssert(err == nil, "tdc_delete_succeeds")
 	zzCrash(p, true, victim, "tdc")
+	o2 := New()
+	err = o2.TagDelete(context.Background(), p.r.SetTag(victim))
+	idx, e2 := o2.readIndex(p.r, false)
+	_, e3 := indexGet(idx, p.r.SetTag(victim))
+	// (a repeat after the delete had already completed reports not found: the tag is gone either way)
+	zzAssert(e2 == nil && e3 != nil, "tdc_repeat_reaches_the_intended_state")
+	_ = err
+	zzValidLayout(p, true, victim, "tdc_after_repeat")
 }
 
 func ZZC07_crash_manifest_delete() {
@@ -207,6 +225,15 @@ func ZZC07_crash_manifest_delete() {
 		}
 	}
 	zzCrash(kept, true, "", "mdc")
+	o2 := New()
+	_ = o2.ManifestDelete(context.Background(), p.r.SetDigest(p.digs[i].String()))
+	zzAssert(!zzos.Cur.Exists(path.Join(zzLay, "blobs", "sha256", p.digs[i].Encoded())), "mdc_repeat_reaches_the_intended_state")
+	idx, e2 := o2.readIndex(p.r, false)
+	zzAssert(e2 == nil, "mdc_repeat_reaches_the_intended_state")
+	for _, e := range idx.Manifests {
+		zzAssert(e.Digest != p.digs[i], "mdc_repeat_reaches_the_intended_state")
+	}
+	zzValidLayout(kept, true, "", "mdc_after_repeat")
 }
 
 // zzArtifactC builds artifact i with the given subject.
@@ -279,6 +306,7 @@ func ZZC07_crash_referrers() {
 	}
 	p := &zzPre{r: r, tags: []string{"a"}, digs: []digest.Digest{subj.Digest}}
 	zzos.Cur.Mark()
+	deleted := -1
 	if nPre > 0 && zzBool("delete") {
 		v := zzInt("victim", 0, nPre-1)
 		for k := 0; k < nPre; k++ {
@@ -290,6 +318,7 @@ func ZZC07_crash_referrers() {
 		err := o.ManifestDelete(ctx, r.SetDigest(arts[v].GetDescriptor().Digest.String()), scheme.WithManifestCheckReferrers())
 		zzAssert(err == nil, "rc_delete_succeeds")
 		zzReach("rc_referrer_deleted")
+		deleted = v
 	} else {
 		m := arts[nPre]
 		err := o.ManifestPut(ctx, r.SetDigest(m.GetDescriptor().Digest.String()), m)
@@ -298,4 +327,31 @@ func ZZC07_crash_referrers() {
 	}
 	zzCrash(p, true, "", "rc")
 	zzTagsResolveDeep("rc")
+	// repeat the interrupted operation with a fresh client
+	o2 := New()
+	if deleted >= 0 {
+		m := arts[deleted]
+		rerr := o2.ManifestDelete(ctx, r.SetDigest(m.GetDescriptor().Digest.String()), scheme.WithManifestCheckReferrers())
+		gone := !zzos.Cur.Exists(path.Join(zzLay, "blobs", "sha256", m.GetDescriptor().Digest.Encoded()))
+		// the repeat either completes the delete or finds it already done
+		zzAssert(gone, "rc_repeat_of_the_delete_reaches_the_intended_state")
+		_ = rerr
+		rl, lerr := o2.ReferrerList(ctx, r.SetDigest(subj.Digest.String()))
+		zzAssert(lerr == nil, "rc_repeat_of_the_delete_reaches_the_intended_state")
+		for _, d := range rl.Descriptors {
+			zzAssert(d.Digest != m.GetDescriptor().Digest, "rc_repeat_of_the_delete_reaches_the_intended_state")
+		}
+	} else {
+		m := arts[nPre]
+		zzAssert(o2.ManifestPut(ctx, r.SetDigest(m.GetDescriptor().Digest.String()), m) == nil, "rc_repeat_of_the_push_succeeds")
+		rl, lerr := o2.ReferrerList(ctx, r.SetDigest(subj.Digest.String()))
+		n := 0
+		for _, d := range rl.Descriptors {
+			if d.Digest == m.GetDescriptor().Digest {
+				n++
+			}
+		}
+		zzAssert(lerr == nil && n == 1, "rc_repeat_of_the_push_reaches_the_intended_state")
+	}
+	zzTagsResolveDeep("rc_after_repeat")
 }
